@@ -38,60 +38,112 @@ Qed.
 Lemma Rh_clear s t h : Rh s t -> Rh (aset h (clear (hget s h)) s) (sclear h t).
 Proof. intros HR. unfold sclear. apply Rh_aset; auto. apply R1_clear, HR. Qed.
 
-(* Handle.__call__ characterised: the value returned is always the object
-   of the most recent load, and load runs iff nothing was cached *)
-Lemma call_spec x y x' v :
-  R1 x y -> call x = (x', v) ->
-  h_loads x' = (if snd y then fst y else fst y + 1) /\
-  is_latest x' v = true /\ R1 x' (h_loads x', true).
+(* what a loading access observes when the handle is already loaded *)
+Lemma spec_access_loaded n fail ob y :
+  spec_access n true fail ob = Some y ->
+  y = (n, true) /\ o_loads ob = n /\ o_exc ob = false /\ o_flag ob = true.
 Proof.
-  intros (Hl & Hc & Hk) Hcall. unfold call in Hcall.
-  destruct (h_cached x) eqn:E.
-  - injection Hcall as <- <-. rewrite <- Hc. repeat split; auto.
-    unfold is_latest. rewrite (Hk eq_refl). apply Z.eqb_refl.
-  - injection Hcall as <- <-. cbn. rewrite <- Hc, <- Hl. repeat split; auto.
-    apply Z.eqb_refl.
+  unfold spec_access.
+  destruct (o_loads ob =? n) eqn:E1; cbn [andb]; [|discriminate].
+  destruct (o_flag ob); cbn [andb]; [|discriminate].
+  destruct (o_exc ob); cbn [negb]; [discriminate|].
+  intros [= <-]. apply Z.eqb_eq in E1. auto.
 Qed.
 
-(* a second call right after a call neither loads nor changes anything *)
-Lemma call_call x x' v : call x = (x', v) -> call x' = (x', v).
+(* ... and when it is not: exactly one more load attempt; it either raises
+   (nothing cached) or succeeds (cached from now on) *)
+Lemma spec_access_unloaded n fail ob y :
+  spec_access n false fail ob = Some y ->
+  o_loads ob = n + 1 /\ o_exc ob = fail /\ y = (n + 1, negb fail).
 Proof.
-  unfold call. destruct (h_cached x) eqn:E; intros [= <- <-].
-  - now rewrite E.
-  - reflexivity.
+  unfold spec_access. destruct fail.
+  - destruct (o_loads ob =? n + 1) eqn:E1; cbn [andb]; [|discriminate].
+    destruct (o_flag ob); cbn [andb]; [|discriminate].
+    destruct (o_exc ob); [|discriminate].
+    intros [= <-]. apply Z.eqb_eq in E1. auto.
+  - destruct (o_loads ob =? n + 1) eqn:E1; cbn [andb]; [|discriminate].
+    destruct (o_flag ob); cbn [andb]; [|discriminate].
+    destruct (o_exc ob); cbn [negb]; [discriminate|].
+    intros [= <-]. apply Z.eqb_eq in E1. auto.
+Qed.
+
+(* Handle.__call__ characterised: whatever observation the model accepts for
+   a call is what the specification demands, and the refinement is kept *)
+Lemma call_spec x y fail x' v r :
+  R1 x y -> call x fail = (x', v, r) ->
+  exists y', (forall ob, obs_ok ob x' v r = true ->
+                         spec_access (fst y) (snd y) fail ob = Some y') /\ R1 x' y'.
+Proof.
+  intros (Hl & Hc & Hk) Hcall. unfold call in Hcall.
+  destruct y as [n since]. cbn [fst snd] in *.
+  destruct (h_cached x) eqn:E.
+  - injection Hcall as <- <- <-. subst since. exists (n, true). split.
+    + intros ob Hob. unfold obs_ok in Hob. rewrite Hl in Hob.
+      unfold is_latest in Hob. rewrite (Hk eq_refl), Hl, Z.eqb_refl in Hob.
+      unfold spec_access.
+      destruct (o_loads ob =? n); cbn [andb] in *; [|discriminate].
+      destruct (o_exc ob); cbn [Bool.eqb andb negb] in *; [discriminate|].
+      destruct (o_flag ob); cbn [Bool.eqb] in *; [reflexivity|discriminate].
+    + repeat split; auto.
+  - subst since. destruct fail.
+    + injection Hcall as <- <- <-. exists (n + 1, false). split.
+      * intros ob Hob. unfold obs_ok in Hob. cbn [h_loads] in Hob. rewrite Hl in Hob.
+        unfold spec_access.
+        destruct (o_loads ob =? n + 1); cbn [andb] in *; [|discriminate].
+        destruct (o_exc ob); cbn [Bool.eqb andb] in *; [|discriminate].
+        destruct (o_flag ob); cbn [Bool.eqb] in *; [reflexivity|discriminate].
+      * repeat split; cbn; auto; try lia.
+    + injection Hcall as <- <- <-. exists (n + 1, true). split.
+      * intros ob Hob. unfold obs_ok in Hob. cbn [h_loads h_cache is_latest] in Hob.
+        rewrite Hl, Z.eqb_refl in Hob.
+        unfold spec_access.
+        destruct (o_loads ob =? n + 1); cbn [andb] in *; [|discriminate].
+        destruct (o_exc ob); cbn [Bool.eqb andb negb] in *; [discriminate|].
+        destruct (o_flag ob); cbn [Bool.eqb] in *; [reflexivity|discriminate].
+      * repeat split; cbn; auto; lia.
+Qed.
+
+(* a call that did not raise leaves the handle cached: a second call right
+   after it neither loads nor changes anything *)
+Lemma call_ok_again x fail x' v :
+  call x fail = (x', v, false) -> call x' false = (x', v, false).
+Proof.
+  unfold call. destruct (h_cached x) eqn:E.
+  - intros [= <- <-]. now rewrite E.
+  - destruct fail; [discriminate|]. intros [= <- <-]. reflexivity.
 Qed.
 
 Lemma step_sim s t o ob s' :
   R s t -> step s o ob = Some s' ->
   exists t', spec_step t o ob = Some t' /\ R s' t'.
 Proof.
-  intros [HR Hcur] Hs. destruct o as [h p|h|h|h cc cn]; cbn [step spec_step] in *.
+  intros [HR Hcur] Hs. destruct o as [h p fail|h|h|h cc cn fail]; cbn [step spec_step] in *.
   - pose proof (HR h) as H1. destruct (sget (sp_h t) h) as [n since] eqn:Et.
     destruct p; cbn [loading].
-    1-4: destruct (call (hget (st_h s) h)) as [x' v] eqn:Ec;
-         destruct (call_spec _ _ _ _ H1 Ec) as (Hl & Hv & HR1); cbn [fst snd] in Hl;
-         rewrite Hv in Hs;
-         destruct (o_loads ob =? h_loads x') eqn:E1; cbn [andb] in Hs; [|discriminate];
-         destruct (o_flag ob) eqn:E2; cbn [Bool.eqb] in Hs; [|discriminate];
-         injection Hs as <-; apply Z.eqb_eq in E1;
-         rewrite <- Hl, E1, Z.eqb_refl; cbn [andb];
+    1-4: destruct (call (hget (st_h s) h) fail) as [[x' v] r] eqn:Ec;
+         destruct (call_spec _ _ _ _ _ _ H1 Ec) as (y' & Hy & HRy); cbn [fst snd] in Hy;
+         destruct (obs_ok ob x' v r) eqn:Eo; [|discriminate];
+         injection Hs as <-; rewrite (Hy ob Eo);
          eexists; split; [reflexivity|]; split; cbn; [apply Rh_aset; auto|auto].
     + (* PGet *) destruct H1 as (Hl & _). cbn [fst] in Hl. rewrite <- Hl.
-      destruct ((o_loads ob =? h_loads (hget (st_h s) h)) && o_flag ob); [|discriminate].
+      destruct ((o_loads ob =? h_loads (hget (st_h s) h)) && o_flag ob && negb (o_exc ob));
+        [|discriminate].
       injection Hs as <-. eexists; split; [reflexivity|]. split; auto.
     + (* PSGet *) destruct H1 as (Hl & _). cbn [fst] in Hl. rewrite <- Hl.
-      destruct ((o_loads ob =? h_loads (hget (st_h s) h)) && o_flag ob); [|discriminate].
+      destruct ((o_loads ob =? h_loads (hget (st_h s) h)) && o_flag ob && negb (o_exc ob));
+        [|discriminate].
       injection Hs as <-. eexists; split; [reflexivity|]. split; auto.
   - pose proof (HR h) as H1. destruct (sget (sp_h t) h) as [n since] eqn:Et.
     destruct H1 as (Hl & Hc & Hk). cbn [fst snd] in *.
     cbn [clear h_loads] in Hs. rewrite Hl in Hs.
-    destruct ((o_loads ob =? n) && o_flag ob); [|discriminate]. injection Hs as <-.
+    destruct ((o_loads ob =? n) && o_flag ob && negb (o_exc ob)); [|discriminate].
+    injection Hs as <-.
     eexists; split; [reflexivity|]. split; cbn; auto.
     apply Rh_clear; auto.
   - pose proof (HR h) as H1. destruct (sget (sp_h t) h) as [n since] eqn:Et.
     destruct H1 as (Hl & Hc & Hk). cbn [fst snd] in *.
     rewrite Hl, Hc in Hs.
-    destruct ((o_loads ob =? n) && Bool.eqb (o_flag ob) since); [|discriminate].
+    destruct ((o_loads ob =? n) && Bool.eqb (o_flag ob) since && negb (o_exc ob)); [|discriminate].
     injection Hs as <-. eexists; split; [reflexivity|]. split; auto.
   - (* OSwitch *)
     rewrite <- Hcur.
@@ -109,15 +161,16 @@ Proof.
     assert (HR2 : Rh s2 t2).
     { subst s2 t2. destruct cn; auto. apply Rh_clear; auto. }
     pose proof (HR2 h) as H1. destruct (sget t2 h) as [n since] eqn:Et.
-    destruct (call (hget s2 h)) as [x1 v1] eqn:Ec1.
-    rewrite (call_call _ _ _ Ec1) in Hs.
-    destruct (call_spec _ _ _ _ H1 Ec1) as (Hl & Hv & HRx); cbn [fst snd] in Hl.
-    rewrite Hv in Hs.
-    destruct (o_loads ob =? h_loads x1) eqn:E1; cbn [andb] in Hs; [|discriminate].
-    destruct (o_flag ob) eqn:E2; cbn [Bool.eqb] in Hs; [|discriminate].
-    injection Hs as <-. apply Z.eqb_eq in E1.
-    rewrite <- Hl, E1, Z.eqb_refl. cbn [andb].
-    eexists; split; [reflexivity|]. split; cbn; auto. apply Rh_aset; auto.
+    destruct (call (hget s2 h) fail) as [[x1 v1] r1] eqn:Ec1.
+    destruct (call_spec _ _ _ _ _ _ H1 Ec1) as (y' & Hy & HRy); cbn [fst snd] in Hy.
+    destruct r1.
+    + destruct (obs_ok ob x1 v1 true) eqn:Eo; [|discriminate].
+      injection Hs as <-. rewrite (Hy ob Eo).
+      eexists; split; [reflexivity|]. split; cbn; auto. apply Rh_aset; auto.
+    + rewrite (call_ok_again _ _ _ _ Ec1) in Hs.
+      destruct (obs_ok ob x1 v1 false) eqn:Eo; [|discriminate].
+      injection Hs as <-. rewrite (Hy ob Eo).
+      eexists; split; [reflexivity|]. split; cbn; auto. apply Rh_aset; auto.
 Qed.
 
 Lemma run_sim tr : forall s t s',
@@ -140,17 +193,17 @@ Qed.
 Definition clears (h : Z) (cur : option Z) (o : op) : bool :=
   match o with
   | OClear h' => h =? h'
-  | OSwitch h' cc cn =>
+  | OSwitch h' cc cn _ =>
       (cn && (h =? h')) ||
       (cc && match cur with Some c => h =? c | None => false end)
   | _ => false
   end.
 
 Definition touches (h : Z) (o : op) : bool :=
-  match o with OAccess h' _ | OClear h' | OCached h' | OSwitch h' _ _ => h =? h' end.
+  match o with OAccess h' _ _ | OClear h' | OCached h' | OSwitch h' _ _ _ => h =? h' end.
 
 Definition next_cur (cur : option Z) (o : op) : option Z :=
-  match o with OSwitch h _ _ => Some h | _ => cur end.
+  match o with OSwitch h _ _ _ => Some h | _ => cur end.
 
 Fixpoint no_clear (h : Z) (cur : option Z) (tr : trace) : bool :=
   match tr with
@@ -168,35 +221,39 @@ Lemma spec_step_loaded t o ob t' h n :
   spec_step t o ob = Some t' -> clears h (sp_cur t) o = false ->
   sget (sp_h t) h = (n, true) ->
   sget (sp_h t') h = (n, true) /\ sp_cur t' = next_cur (sp_cur t) o /\
-  (touches h o = true -> o_loads ob = n).
+  (touches h o = true -> o_loads ob = n /\ o_exc ob = false).
 Proof.
-  intros Hs Hc Hg. destruct o as [h' p|h'|h'|h' cc cn]; cbn [spec_step clears touches next_cur] in *.
+  intros Hs Hc Hg.
+  destruct o as [h' p fail|h'|h'|h' cc cn fail]; cbn [spec_step clears touches next_cur] in *.
   - destruct (sget (sp_h t) h') as [m since] eqn:Eg'.
     destruct (h =? h') eqn:Eh.
     + apply Z.eqb_eq in Eh; subst h'. rewrite Hg in Eg'. injection Eg' as <- <-.
       destruct (loading p).
+      * destruct (spec_access n true fail ob) as [y|] eqn:Ea; [|discriminate].
+        injection Hs as <-. cbn.
+        destruct (spec_access_loaded _ _ _ _ Ea) as (-> & H1 & H2 & _).
+        rewrite sget_aset, Z.eqb_refl. auto.
       * destruct (o_loads ob =? n) eqn:E1; cbn [andb] in Hs; [|discriminate].
-        destruct (o_flag ob); [|discriminate]. injection Hs as <-. cbn.
-        rewrite sget_aset, Z.eqb_refl. apply Z.eqb_eq in E1. auto.
-      * destruct (o_loads ob =? n) eqn:E1; cbn [andb] in Hs; [|discriminate].
-        destruct (o_flag ob); [|discriminate]. injection Hs as <-.
-        apply Z.eqb_eq in E1. auto.
+        destruct (o_flag ob); cbn [andb] in Hs; [|discriminate].
+        destruct (o_exc ob); cbn [negb] in Hs; [discriminate|].
+        injection Hs as <-. apply Z.eqb_eq in E1. auto.
     + destruct (loading p).
-      * destruct (_ && _); [|discriminate]. injection Hs as <-. cbn.
-        rewrite sget_aset, Eh. repeat split; auto. discriminate.
+      * destruct (spec_access m since fail ob) as [y|]; [|discriminate]. injection Hs as <-. cbn.
+        rewrite sget_aset, Eh. repeat split; auto; discriminate.
       * destruct (_ && _); [|discriminate]. injection Hs as <-.
-        repeat split; auto. discriminate.
+        repeat split; auto; discriminate.
   - destruct (sget (sp_h t) h') as [m since] eqn:Eg'.
     destruct (_ && _); [|discriminate]. injection Hs as <-. cbn.
-    rewrite sget_sclear, Hc. repeat split; auto. discriminate.
+    rewrite sget_sclear, Hc. repeat split; auto; discriminate.
   - destruct (sget (sp_h t) h') as [m since] eqn:Eg'.
     destruct (h =? h') eqn:Eh.
     + apply Z.eqb_eq in Eh; subst h'. rewrite Hg in Eg'. injection Eg' as <- <-.
       destruct (o_loads ob =? n) eqn:E1; cbn [andb] in Hs; [|discriminate].
-      destruct (Bool.eqb (o_flag ob) true); [|discriminate]. injection Hs as <-.
-      apply Z.eqb_eq in E1. auto.
+      destruct (Bool.eqb (o_flag ob) true); cbn [andb] in Hs; [|discriminate].
+      destruct (o_exc ob); cbn [negb] in Hs; [discriminate|].
+      injection Hs as <-. apply Z.eqb_eq in E1. auto.
     + destruct (_ && _); [|discriminate]. injection Hs as <-.
-      repeat split; auto. discriminate.
+      repeat split; auto; discriminate.
   - apply orb_false_iff in Hc. destruct Hc as [Hc1 Hc2].
     set (s1 := match sp_cur t with
                | Some c => if cc then sclear c (sp_h t) else sp_h t
@@ -208,13 +265,13 @@ Proof.
     assert (Hg2 : sget s2 h = (n, true)).
     { subst s2. destruct cn; auto. cbn [andb] in Hc1. rewrite sget_sclear, Hc1. exact Hg1. }
     destruct (sget s2 h') as [m since] eqn:Eg'.
+    destruct (spec_access m since fail ob) as [y|] eqn:Ea; [|discriminate].
+    injection Hs as <-. cbn.
     destruct (h =? h') eqn:Eh.
     + apply Z.eqb_eq in Eh; subst h'. rewrite Hg2 in Eg'. injection Eg' as <- <-.
-      destruct (o_loads ob =? n) eqn:E1; cbn [andb] in Hs; [|discriminate].
-      destruct (o_flag ob); [|discriminate]. injection Hs as <-. cbn.
-      rewrite sget_aset, Z.eqb_refl. apply Z.eqb_eq in E1. auto.
-    + destruct (_ && _); [|discriminate]. injection Hs as <-. cbn.
-      rewrite sget_aset, Eh. repeat split; auto. discriminate.
+      destruct (spec_access_loaded _ _ _ _ Ea) as (-> & H1 & H2 & _).
+      rewrite sget_aset, Z.eqb_refl. auto.
+    + rewrite sget_aset, Eh. repeat split; auto; discriminate.
 Qed.
 
 (* at most one load between two clears: along any trace satisfying the
@@ -225,7 +282,7 @@ Lemma loads_stable_when_loaded tr : forall t t' h n,
   spec_run t tr = Some t' -> no_clear h (sp_cur t) tr = true ->
   sget (sp_h t) h = (n, true) ->
   sget (sp_h t') h = (n, true) /\
-  forall o ob, In (o, ob) tr -> touches h o = true -> o_loads ob = n.
+  forall o ob, In (o, ob) tr -> touches h o = true -> o_loads ob = n /\ o_exc ob = false.
 Proof.
   induction tr as [|[o ob] tr IH]; intros t t' h n Hr Hn Hg; cbn [spec_run] in Hr.
   - injection Hr as <-. split; auto. intros ? ? [].
@@ -240,13 +297,17 @@ Proof.
     + eauto.
 Qed.
 
-(* the first loading access after a clear (or ever) loads exactly once *)
-Lemma first_access_loads t h p ob t' n :
-  spec_step t (OAccess h p) ob = Some t' -> loading p = true ->
-  sget (sp_h t) h = (n, false) -> o_loads ob = n + 1 /\ sget (sp_h t') h = (n + 1, true).
+(* the first loading access after a clear (or ever, or after a failed load)
+   makes exactly one load attempt; if load() raises the error reaches the
+   caller and the handle stays unloaded, otherwise it is loaded from now on *)
+Lemma first_access_loads t h p fail ob t' n :
+  spec_step t (OAccess h p fail) ob = Some t' -> loading p = true ->
+  sget (sp_h t) h = (n, false) ->
+  o_loads ob = n + 1 /\ o_exc ob = fail /\ sget (sp_h t') h = (n + 1, negb fail).
 Proof.
   cbn [spec_step]. intros Hs Hl Hg. rewrite Hg, Hl in Hs.
-  destruct (o_loads ob =? n + 1) eqn:E1; cbn [andb] in Hs; [|discriminate].
-  destruct (o_flag ob); [|discriminate]. injection Hs as <-. cbn.
-  rewrite sget_aset, Z.eqb_refl. apply Z.eqb_eq in E1. auto.
+  destruct (spec_access n false fail ob) as [y|] eqn:Ea; [|discriminate].
+  injection Hs as <-. cbn.
+  destruct (spec_access_unloaded _ _ _ _ Ea) as (H1 & H2 & ->).
+  rewrite sget_aset, Z.eqb_refl. auto.
 Qed.
